@@ -8,11 +8,12 @@
 
 using namespace vc;
 
-enum Kind { C_CONT, C_STAGED, K_CONT, K_STAGED, K_SCHED, D_CONT, D_STAGED, W_KCONT, W_KASYM };
+enum Kind { C_CONT, C_STAGED, K_CONT, K_STAGED, K_SCHED, D_CONT, D_STAGED, W_KCONT, W_KASYM, W_DASYM, W_DUPPER };
 
 // harmonicWalls: per-side scale factors of the force constant (1 for symmetric walls; for lowerWallConstant 1,
 // upperWallConstant 4 the documented reference constant is the geometric mean 2 and the sides scale by 0.5 and 2)
-static double wall_scale(Kind k, bool upper) { return k == W_KASYM ? (upper ? 2.0 : 0.5) : 1.0; }
+static double wall_scale(Kind k, bool upper) { return (k == W_KASYM || k == W_DASYM) ? (upper ? 2.0 : 0.5) : 1.0; }
+static bool is_walls(Kind k) { return k == W_KCONT || k == W_KASYM || k == W_DASYM || k == W_DUPPER; }
 
 struct Sched {
   const char *name;
@@ -32,8 +33,9 @@ static std::string conf_of(Sched const &s)
 {
   std::string c = "colvar {\n name d\n width 0.5\n distance {\n group1 { atomNumbers 1 }\n group2 { atomNumbers 2 }\n }\n}\n";
   if (s.periodic) c = "colvar {\n name d\n width 0.5\n distanceZ {\n period 4.0\n axis (1, 0, 0)\n main { atomNumbers 2 }\n ref { atomNumbers 1 }\n }\n}\n";
-  std::string b = (s.kind == W_KCONT || s.kind == W_KASYM) ? "harmonicWalls {\n name r\n colvars d\n lowerWalls 1.8\n upperWalls 2.4\n" : "harmonic {\n name r\n colvars d\n centers 1.0\n";
-  if (s.kind == W_KASYM) b += " lowerWallConstant 1.0\n upperWallConstant 4.0\n";
+  std::string b = is_walls(s.kind) ? std::string("harmonicWalls {\n name r\n colvars d\n") + (s.kind == W_DUPPER ? "" : " lowerWalls 1.8\n") + " upperWalls 2.4\n" : "harmonic {\n name r\n colvars d\n centers 1.0\n";
+  if (s.kind == W_KASYM || s.kind == W_DASYM) b += " lowerWallConstant 1.0\n upperWallConstant 4.0\n";
+  else if (s.kind == W_DUPPER) b += " upperWallConstant 2.0\n";   // one wall: its constant is the reference constant
   else b += " forceConstant 2.0\n";
   switch (s.kind) {
   case C_CONT: b += " targetCenters 3.0\n"; break;
@@ -46,7 +48,7 @@ static std::string conf_of(Sched const &s)
     b += "\n";
     break;
   }
-  case D_CONT: b += " decoupling on\n"; break;
+  case D_CONT: case W_DASYM: case W_DUPPER: b += " decoupling on\n"; break;
   case D_STAGED: b += " decoupling on\n targetNumStages " + std::to_string(s.M) + "\n"; break;
   }
   b += " targetNumSteps " + std::to_string(s.N) + "\n";
@@ -174,6 +176,8 @@ int main(int argc, char **argv)
       {"decoupling-staged", D_STAGED, 2, 3, 0, 1.0, false, {}},
       {"walls-k-continuous", W_KCONT, 4, 0, 0, 1.0, true, {}},
       {"walls-asymmetric-k-continuous", W_KASYM, 5, 0, 0, 1.0, true, {}},
+      {"walls-asymmetric-decoupling-continuous", W_DASYM, 5, 0, 0, 1.0, true, {}},
+      {"walls-upper-only-decoupling-continuous", W_DUPPER, 4, 0, 0, 2.0, true, {}},
   };
 
   long nseg = 1;
@@ -227,7 +231,7 @@ int main(int argc, char **argv)
               if (!close_rel(q.k, k, 6.0, 1e-13)) r.violation("C06:schedule:k-continuous-closed-form", det + ",\"k\":" + num(q.k) + ",\"expected\":" + num(k) + "}");
               break;
             }
-            case D_CONT: {
+            case D_CONT: case W_DASYM: case W_DUPPER: {
               double k = K0 * std::pow(1.0 - lam, sc.alpha);
               if (!close_rel(q.k, k, 6.0, 1e-13)) r.violation("C06:schedule:decoupling-continuous-closed-form", det + ",\"k\":" + num(q.k) + ",\"expected\":" + num(k) + "}");
               break;
@@ -254,8 +258,8 @@ int main(int argc, char **argv)
           for (int s = 0; s < L; s++) {
             Rec const &q = ref.last[s];
             double e;
-            if (sc.kind == W_KCONT || sc.kind == W_KASYM) {
-              double d = q.x < 1.8 ? q.x - 1.8 : (q.x > 2.4 ? q.x - 2.4 : 0.0);
+            if (is_walls(sc.kind)) {
+              double d = (q.x < 1.8 && sc.kind != W_DUPPER) ? q.x - 1.8 : (q.x > 2.4 ? q.x - 2.4 : 0.0);
               e = 0.5 * q.k * wall_scale(sc.kind, q.x > 2.4) * d * d / (WIDTH * WIDTH);
             } else { double dx = img(q.x - q.center, sc.periodic); e = 0.5 * q.k * dx * dx / (WIDTH * WIDTH); }
             if (!close_rel(q.E, e, std::max(1.0, e), 1e-12))
@@ -274,8 +278,8 @@ int main(int argc, char **argv)
                 WC += q.k * img(p.center + 0.5 * dc - q.x, sc.periodic) / (WIDTH * WIDTH) * dc;
               } else {
                 double dk = q.k - p.k, dudk;
-                if (sc.kind == W_KCONT || sc.kind == W_KASYM) {
-                  double d = q.x < 1.8 ? q.x - 1.8 : (q.x > 2.4 ? q.x - 2.4 : 0.0);
+                if (is_walls(sc.kind)) {
+                  double d = (q.x < 1.8 && sc.kind != W_DUPPER) ? q.x - 1.8 : (q.x > 2.4 ? q.x - 2.4 : 0.0);
                   dudk = 0.5 * wall_scale(sc.kind, q.x > 2.4) * d * d / (WIDTH * WIDTH);
                 } else dudk = 0.5 * (q.x - q.center) * (q.x - q.center) / (WIDTH * WIDTH);
                 WA += dudk * dk; WB = WA; WC = WA;
